@@ -148,3 +148,442 @@ Lemma inv_wait_check : forall W s, Inv W s -> Inv W (wait_check s).
 Proof.
   intros. unfold wait_check. destruct (unfinished s =? 0); apply inv_frame with (s := s); auto.
 Qed.
+
+(* ------------------------------------------------------------------ dependents are started jobs *)
+Lemma dependents_started : forall W s p x, In x (dependents W s p) -> started (pc (jobs s (fst x))) = true.
+Proof.
+  intros W s p x H. unfold dependents in H. apply in_flat_map in H. destruct H as (j & _ & H).
+  destruct (started (pc (jobs s j))) eqn:S; [|destruct H].
+  apply in_map_iff in H. destruct H as (i & <- & _). simpl. auto.
+Qed.
+
+Lemma dependents_jobs_eq : forall W s s' p, (forall j, started (pc (jobs s' j)) = started (pc (jobs s j))) ->
+  dependents W s' p = dependents W s p.
+Proof.
+  intros. unfold dependents. apply flat_map_ext. intros j. rewrite H. auto.
+Qed.
+
+(* the job's own steps that keep its dependency statuses *)
+Lemma inv_update_own : forall W s s' j r',
+  wf W = true -> Inv W s -> started (pc (jobs s j)) = true ->
+  jobs s' = upd (jobs s) j r' ->
+  linv (deps W j) (j_marker (spec W j)) (j_code (spec W j)) r' ->
+  cur r' = cur (jobs s j) -> fdep r' = fdep (jobs s j) ->
+  (st (jobs s j) = DONE -> st r' = DONE) -> (st (jobs s j) = ERROR -> st r' = ERROR) ->
+  started (pc r') = true ->
+  (past_loop (pc (jobs s j)) = true -> past_loop (pc r') = true) ->
+  ((st r' = READY \/ in_start (pc r') = true) -> (st (jobs s j) = READY \/ in_start (pc (jobs s j)) = true)) ->
+  (launches r' = 1%nat -> launches (jobs s j) = 1%nat \/ st (jobs s j) = READY \/ in_start (pc (jobs s j)) = true) ->
+  unfinished s' - unfinished s = (if counted (pc r') then 1 else 0) - (if counted (pc (jobs s j)) then 1 else 0) ->
+  (forall x, In x (failed s') <->
+     In x (failed s) \/ (x = j /\ past_loop (pc r') = true /\ past_loop (pc (jobs s j)) = false /\ st r' <> DONE)) ->
+  (forall c, In c (queue s') -> In c (queue s) \/ cb_ok s' c) ->
+  Inv W s'.
+Proof.
+  intros W s s' j r' WF I S EJ L EC EF SD SE SS SP RD LD CNT FL Q.
+  assert (Jn : (j < njobs W)%nat).
+  { apply inv_job_lt with (s := s); auto. destruct (pc (jobs s j)); simpl in S; congruence. }
+  assert (SPN : spawned (pc (jobs s j)) = true) by (destruct (pc (jobs s j)); simpl in S; try discriminate; auto).
+  apply (@inv_update W s s' j r'); auto.
+  - intros _. destruct (pc r'); simpl in SS; try discriminate; auto.
+  - intros _ k Hk. apply (I_sub I j k); auto.
+  - intros i k _ X Y. rewrite EC in X. eapply (I_CO I j); eauto.
+  - intros i _ X. rewrite EC in X. eapply (I_CF I j); eauto.
+  - intros X k Hk. apply (I_RD I j k); auto.
+  - intros X. apply (I_FD I j). congruence.
+  - intros X k Hk. destruct (LD X) as [Y|Y]; [apply (I_LD I j k); auto|apply (I_RD I j k); auto].
+Qed.
+
+(* ------------------------------------------------------------------ the transitions, one by one *)
+Lemma inv_deliver : forall W s j a, wf W = true -> Inv W s -> pc (jobs s j) = PExt a ->
+  Inv W (enqueue (setjob s j (w_pc (jobs s j) (PWoken a))) (CStep j)).
+Proof.
+  intros W s j a WF I P. set (r := jobs s j) in *.
+  set (r' := w_pc r (PWoken a)). set (s' := enqueue (setjob s j r') (CStep j)).
+  assert (S : started (pc r) = true) by (rewrite P; auto).
+  assert (EJ : jobs s' = upd (jobs s) j r') by reflexivity.
+  assert (L : linv (deps W j) (j_marker (spec W j)) (j_code (spec W j)) r') by (apply linv_deliver; auto; apply (I_loc I j)).
+  assert (EC : cur r' = cur r) by reflexivity.
+  assert (EF : fdep r' = fdep r) by reflexivity.
+  assert (SD : st r = DONE -> st r' = DONE) by auto.
+  assert (SE : st r = ERROR -> st r' = ERROR) by auto.
+  assert (SS : started (pc r') = true) by reflexivity.
+  assert (SP : past_loop (pc r) = true -> past_loop (pc r') = true) by (rewrite P; destruct a; simpl; auto).
+  assert (RD : (st r' = READY \/ in_start (pc r') = true) -> (st r = READY \/ in_start (pc r) = true)).
+  { rewrite P. destruct a; simpl; auto. }
+  assert (LD : launches r' = 1%nat -> launches r = 1%nat \/ st r = READY \/ in_start (pc r) = true) by auto.
+  assert (CNT : unfinished s' - unfinished s = (if counted (pc r') then 1 else 0) - (if counted (pc r) then 1 else 0)).
+  { rewrite P. simpl. lia. }
+  assert (FL : forall x, In x (failed s') <->
+     In x (failed s) \/ (x = j /\ past_loop (pc r') = true /\ past_loop (pc r) = false /\ st r' <> DONE)).
+  { intros x. split; auto. intros [X|(_ & X & Y & _)]; auto. rewrite P in Y. destruct a; simpl in *; congruence. }
+  assert (Q : forall c, In c (queue s') -> In c (queue s) \/ cb_ok s' c).
+  { intros c Hc. apply in_app_or in Hc. destruct Hc as [X|[<-|[]]]; auto. right. simpl. auto. }
+  exact (@inv_update_own W s s' j r' WF I S EJ L EC EF SD SE SS SP RD LD CNT FL Q).
+Qed.
+
+Lemma inv_lockoutrun : forall W s j, wf W = true -> Inv W s -> pc (jobs s j) = PWoken ALockOutRun ->
+  Inv W (setjob s j (w_pc (jobs s j) (PExt AProc))).
+Proof.
+  intros W s j WF I P. set (r := jobs s j) in *.
+  set (r' := w_pc r (PExt AProc)). set (s' := setjob s j r').
+  assert (S : started (pc r) = true) by (rewrite P; auto).
+  assert (EJ : jobs s' = upd (jobs s) j r') by reflexivity.
+  assert (L : linv (deps W j) (j_marker (spec W j)) (j_code (spec W j)) r') by (apply linv_lockoutrun; auto; apply (I_loc I j)).
+  assert (EC : cur r' = cur r) by reflexivity.
+  assert (EF : fdep r' = fdep r) by reflexivity.
+  assert (SD : st r = DONE -> st r' = DONE) by auto.
+  assert (SE : st r = ERROR -> st r' = ERROR) by auto.
+  assert (SS : started (pc r') = true) by reflexivity.
+  assert (SP : past_loop (pc r) = true -> past_loop (pc r') = true) by (rewrite P; simpl; auto).
+  assert (RD : (st r' = READY \/ in_start (pc r') = true) -> (st r = READY \/ in_start (pc r) = true)).
+  { rewrite P. simpl; auto. }
+  assert (LD : launches r' = 1%nat -> launches r = 1%nat \/ st r = READY \/ in_start (pc r) = true) by auto.
+  assert (CNT : unfinished s' - unfinished s = (if counted (pc r') then 1 else 0) - (if counted (pc r) then 1 else 0)).
+  { rewrite P. simpl. lia. }
+  assert (FL : forall x, In x (failed s') <->
+     In x (failed s) \/ (x = j /\ past_loop (pc r') = true /\ past_loop (pc r) = false /\ st r' <> DONE)).
+  { intros x. split; auto. intros [X|(_ & X & Y & _)]; auto. discriminate. }
+  assert (Q : forall c, In c (queue s') -> In c (queue s) \/ cb_ok s' c) by (intros c Hc; auto).
+  exact (@inv_update_own W s s' j r' WF I S EJ L EC EF SD SE SS SP RD LD CNT FL Q).
+Qed.
+
+(* facts about a job whose coroutine is outside aio_start and before the end of its loop *)
+Lemma idle_facts : forall ds mk code r, linv ds mk code r -> started (pc r) = true ->
+  in_start (pc r) = false -> past_loop (pc r) = false ->
+  held r = [] /\ launches r = 0%nat /\ mk = false.
+Proof.
+  intros ds mk code r L S IS PL.
+  assert (H : held r = []).
+  { destruct (held r) eqn:E; auto. assert (X : held r <> []) by congruence.
+    destruct (l_held L X) as [Y|[Y|[Y|Y]]]; try (rewrite Y in IS; discriminate).
+    destruct (pc r); simpl in *; try discriminate. destruct a; simpl in *; discriminate. destruct a; simpl in *; discriminate. }
+  assert (L0 : launches r = 0%nat).
+  { pose proof (l_L1 L). destruct (launches r) as [|[|n]] eqn:E; auto; try lia.
+    destruct (l_L2 L E) as (_ & [X|(X&_)]); [|congruence].
+    destruct (pc r); simpl in *; try discriminate. destruct a; simpl in *; discriminate. destruct a; simpl in *; discriminate. }
+  repeat split; auto.
+  destruct mk; auto. pose proof (l_mk L eq_refl S) as D. pose proof (l_D L D) as X. congruence.
+Qed.
+
+(* committing the result of one of the loop functions *)
+Lemma inv_commit_loop : forall W s j r2 p,
+  wf W = true -> Inv W s -> started (pc (jobs s j)) = true -> past_loop (pc (jobs s j)) = false ->
+  linv (deps W j) (j_marker (spec W j)) (j_code (spec W j)) (fst p) ->
+  loop_shape r2 p ->
+  cur r2 = cur (jobs s j) -> fdep r2 = fdep (jobs s j) -> launches r2 = launches (jobs s j) ->
+  (st (jobs s j) = DONE -> st r2 = DONE) -> (st (jobs s j) = ERROR -> st r2 = ERROR) ->
+  (st r2 = READY -> st (jobs s j) = READY \/ in_start (pc (jobs s j)) = true) ->
+  Inv W (commit s j p).
+Proof.
+  intros W s j r2 p WF I S NP LI (S_st & S_cur & S_uns & S_held & S_fdep & S_l & S_snd & S_pc) EC2 EF2 EL2 SD2 SE2 RD2.
+  set (r := jobs s j) in *. set (r' := fst p) in *. set (s' := commit s j p).
+  assert (EJ : jobs s' = upd (jobs s) j r') by (unfold s', commit; destruct (snd p); reflexivity).
+  assert (EC : cur r' = cur r) by congruence.
+  assert (EF : fdep r' = fdep r) by congruence.
+  assert (SD : st r = DONE -> st r' = DONE) by (intros; rewrite S_st; auto).
+  assert (SE : st r = ERROR -> st r' = ERROR) by (intros; rewrite S_st; auto).
+  assert (SS : started (pc r') = true) by (destruct S_pc as [(X&_)|[(X&_)|(X&_)]]; rewrite X; auto).
+  assert (SP : past_loop (pc r) = true -> past_loop (pc r') = true) by congruence.
+  assert (RD : (st r' = READY \/ in_start (pc r') = true) -> (st r = READY \/ in_start (pc r) = true)).
+  { intros [X|X]; [apply RD2; congruence|].
+    destruct S_pc as [(Y&_)|[(Y&_)|(Y&Z)]]; rewrite Y in X; try discriminate. apply RD2; auto. }
+  assert (LD : launches r' = 1%nat -> launches r = 1%nat \/ st r = READY \/ in_start (pc r) = true).
+  { intros X. left. congruence. }
+  assert (CR : counted (pc r) = true) by (destruct (pc r); simpl in *; try discriminate; auto).
+  assert (CNT : unfinished s' - unfinished s = (if counted (pc r') then 1 else 0) - (if counted (pc r) then 1 else 0)).
+  { rewrite CR. assert (U : unfinished s' = unfinished s) by (unfold s', commit; destruct (snd p); reflexivity).
+    clear - U S_pc. rewrite U. destruct S_pc as [(X&_)|[(X&_)|(X&_)]]; rewrite X; simpl; lia. }
+  assert (FL : forall x, In x (failed s') <->
+     In x (failed s) \/ (x = j /\ past_loop (pc r') = true /\ past_loop (pc r) = false /\ st r' <> DONE)).
+  { intros x. unfold s', commit. destruct (snd p) eqn:E; simpl.
+    + rewrite in_app_iff. simpl. destruct (proj1 S_snd eq_refl) as (E1 & E2).
+      split; [intros [X|[X|[]]]; auto; right; subst; repeat split; auto; congruence|].
+      intros [X|(X & _)]; auto.
+    + split; auto. intros [X|(_ & X & _ & Y)]; auto.
+      assert (false = true); [|discriminate]. apply S_snd. split; auto. congruence. }
+  assert (Q : forall c, In c (queue s') -> In c (queue s) \/ cb_ok s' c).
+  { intros c Hc. left. unfold s', commit in Hc. destruct (snd p); simpl in Hc; auto. }
+  exact (@inv_update_own W s s' j r' WF I S EJ LI EC EF SD SE SS SP RD LD CNT FL Q).
+Qed.
+
+Lemma inv_after_ready : forall W s j, wf W = true -> Inv W s -> pc (jobs s j) = PWokenReady ->
+  Inv W (commit s j (after_ready_l (jobs s j))).
+Proof.
+  intros W s j WF I P. set (r := jobs s j) in *.
+  pose proof (I_loc I j) as L. unfold jl in L. fold r in L.
+  assert (S : started (pc r) = true) by (rewrite P; auto).
+  destruct (@idle_facts _ _ _ r L S) as (H & L0 & MK); try (rewrite P; reflexivity).
+  assert (M : lmid (deps W j) (j_marker (spec W j)) (j_code (spec W j)) r).
+  { apply lmid_of_linv; auto; congruence. }
+  assert (D : st r = READY \/ finished (st r) = true \/ (st r = WAITING /\ uns r <> 0)).
+  { destruct (l_WS L P) as [X|X]; auto. right; left. rewrite X; auto. }
+  apply (@inv_commit_loop W s j r (after_ready_l r)); auto.
+  - fold r. rewrite P. reflexivity.
+  - apply after_ready_l_ok; auto.
+  - apply after_ready_l_shape.
+Qed.
+
+Lemma dep_status_fail : forall s d, dep_status s d = DFAIL -> exists k, d = DJob k /\ st (jobs s k) = ERROR.
+Proof.
+  destruct d; simpl.
+  - intros X. exists k. split; auto. destruct (st (jobs s k)); try discriminate; auto.
+  - destruct (c <=? avail s t)%nat; discriminate.
+Qed.
+Lemma dep_status_ok : forall s k, dep_status s (DJob k) = DOK -> st (jobs s k) = DONE.
+Proof. intros s k X. simpl in X. destruct (st (jobs s k)); try discriminate; auto. Qed.
+
+Lemma inv_spawn : forall W s j, wf W = true -> Inv W s -> pc (jobs s j) = PSpawned -> Inv W (run_spawn W all_fixed s j).
+Proof.
+  intros W s j WF I P. unfold run_spawn. simpl fx3.
+  set (r := jobs s j) in *. set (news := map (dep_status s) (deps W j)).
+  set (p := spawn_l true (j_marker (spec W j)) r news).
+  pose proof (I_loc I j) as L. unfold jl in L. fold r in L.
+  assert (Len : length news = length (deps W j)) by (apply map_length).
+  destruct (@spawn_l_ok (deps W j) (j_marker (spec W j)) (j_code (spec W j)) r news L P Len) as (LI & C & ST & SND & RDY & HD & LA & DN & IST & FDP & CT). fold p in LI, C, ST, SND, RDY, HD, LA, DN, IST, FDP, CT.
+  set (r' := fst p) in *. set (s' := commit s j p).
+  assert (NS : started (pc r) = false) by (rewrite P; auto).
+  destruct (l_un L NS) as (Ul & Uh & Us & Uf & Uc & Uu).
+  assert (Jn : (j < njobs W)%nat) by (apply inv_job_lt with (s := s); auto; fold r; congruence).
+  assert (EJ : jobs s' = upd (jobs s) j r') by (unfold s', commit; destruct (snd p); reflexivity).
+  assert (SD : st r = DONE -> st r' = DONE) by congruence.
+  assert (SE : st r = ERROR -> st r' = ERROR) by congruence.
+  assert (SS : started (pc r) = true -> started (pc r') = true) by auto.
+  assert (SP : past_loop (pc r) = true -> past_loop (pc r') = true) by (rewrite P; discriminate).
+  assert (SW : spawned (pc r) = true -> spawned (pc r') = true).
+  { intros _. destruct (pc r'); simpl in ST; try discriminate; auto. }
+  assert (SUB : spawned (pc r') = true -> forall k, In (DJob k) (deps W j) -> spawned (pc (jobs s k)) = true).
+  { intros _ k Hk. apply (I_sub I j k); auto. fold r. rewrite P. auto. }
+  assert (NTH : forall i d, nth_error (deps W j) i = Some d -> nth_error news i = Some (dep_status s d)).
+  { intros i d X. unfold news. rewrite nth_error_map, X. auto. }
+  assert (CO : forall i k, started (pc r') = true -> nth_error (cur r') i = Some DOK ->
+            nth_error (deps W j) i = Some (DJob k) -> st (jobs s k) = DONE).
+  { intros i k _ X Y. rewrite C, (NTH _ _ Y) in X. inversion X. apply dep_status_ok; auto. }
+  assert (CF : forall i, started (pc r') = true -> nth_error (cur r') i = Some DFAIL ->
+            exists k, nth_error (deps W j) i = Some (DJob k) /\ st (jobs s k) = ERROR).
+  { intros i _ X. rewrite C in X. unfold news in X. rewrite nth_error_map in X.
+    destruct (nth_error (deps W j) i) as [d|] eqn:Y; simpl in X; [|discriminate]. inversion X as [X'].
+    destruct (dep_status_fail _ _ X') as (k & -> & K). exists k; auto. }
+  assert (RD : (st r' = READY \/ in_start (pc r') = true) -> forall k, In (DJob k) (deps W j) -> st (jobs s k) = DONE).
+  { intros X k Hk. assert (R : st r' = READY) by (destruct X; auto).
+    apply In_nth_error in Hk. destruct Hk as (i & Hi). apply dep_status_ok. eapply RDY; eauto. }
+  assert (FD : fdep r' = true -> exists k, In (DJob k) (deps W j) /\ st (jobs s k) = ERROR).
+  { intros X. destruct (FDP X) as (i & Hi). unfold news in Hi. rewrite nth_error_map in Hi.
+    destruct (nth_error (deps W j) i) as [d|] eqn:Y; simpl in Hi; [|discriminate]. inversion Hi as [X'].
+    destruct (dep_status_fail _ _ X') as (k & -> & K). exists k. split; auto. eapply nth_error_In; eauto. }
+  assert (LD : launches r' = 1%nat -> forall k, In (DJob k) (deps W j) -> st (jobs s k) = DONE) by (intros X; congruence).
+  assert (CNT : unfinished s' - unfinished s = (if counted (pc r') then 1 else 0) - (if counted (pc r) then 1 else 0)).
+  { assert (U : unfinished s' = unfinished s) by (unfold s', commit; destruct (snd p); reflexivity).
+    clear - U CT P. rewrite U, CT, P. simpl. lia. }
+  assert (FL : forall x, In x (failed s') <->
+     In x (failed s) \/ (x = j /\ past_loop (pc r') = true /\ past_loop (pc r) = false /\ st r' <> DONE)).
+  { intros x. unfold s', commit. destruct (snd p) eqn:E; simpl.
+    + rewrite in_app_iff. simpl. destruct (proj1 SND eq_refl) as (E1 & E2).
+      split; [intros [X|[X|[]]]; auto; right; subst; repeat split; auto; rewrite P; auto|].
+      intros [X|(X & _)]; auto.
+    + split; auto. intros [X|(_ & X & _ & Y)]; auto.
+      assert (false = true); [|discriminate]. apply SND. split; auto. }
+  assert (Q : forall c, In c (queue s') -> In c (queue s) \/ cb_ok s' c).
+  { intros c Hc. left. unfold s', commit in Hc. destruct (snd p); simpl in Hc; auto. }
+  exact (@inv_update W s s' j r' WF I Jn EJ LI SD SE SS SP SW SUB CO CF RD FD LD CNT FL Q).
+Qed.
+
+Lemma release_all_jobs : forall W s j, jobs (release_all W s j) = upd (jobs s) j (w_held (jobs s j) []).
+Proof. reflexivity. Qed.
+
+Lemma inv_release : forall W s j, wf W = true -> Inv W s -> started (pc (jobs s j)) = true ->
+  Inv W (release_all W s j).
+Proof.
+  intros W s j WF I S. set (r := jobs s j) in *.
+  set (r' := w_held r []). set (s' := release_all W s j).
+  assert (EJ : jobs s' = upd (jobs s) j r') by reflexivity.
+  assert (L : linv (deps W j) (j_marker (spec W j)) (j_code (spec W j)) r') by (apply linv_release; auto; apply (I_loc I j)).
+  assert (EC : cur r' = cur r) by reflexivity.
+  assert (EF : fdep r' = fdep r) by reflexivity.
+  assert (SD : st r = DONE -> st r' = DONE) by auto.
+  assert (SE : st r = ERROR -> st r' = ERROR) by auto.
+  assert (SS : started (pc r') = true) by exact S.
+  assert (SP : past_loop (pc r) = true -> past_loop (pc r') = true) by auto.
+  assert (RD : (st r' = READY \/ in_start (pc r') = true) -> (st r = READY \/ in_start (pc r) = true)) by auto.
+  assert (LD : launches r' = 1%nat -> launches r = 1%nat \/ st r = READY \/ in_start (pc r) = true) by auto.
+  assert (CNT : unfinished s' - unfinished s = (if counted (pc r') then 1 else 0) - (if counted (pc r) then 1 else 0)).
+  { simpl. clear. destruct (counted (pc r)); lia. }
+  assert (FL : forall x, In x (failed s') <->
+     In x (failed s) \/ (x = j /\ past_loop (pc r') = true /\ past_loop (pc r) = false /\ st r' <> DONE)).
+  { intros x. split; auto. intros [X|(_ & X & Y & _)]; auto. simpl in X. congruence. }
+  assert (Q : forall c, In c (queue s') -> In c (queue s) \/ cb_ok s' c).
+  { intros c Hc. simpl in Hc. apply in_app_or in Hc. destruct Hc as [X|X]; auto. right.
+    unfold release_notes in X. apply in_flat_map in X. destruct X as (tc & _ & X).
+    apply in_map_iff in X. destruct X as (q & <- & X). apply dependents_started in X. simpl.
+    unfold upd. destruct (Nat.eqb (fst q) j) eqn:E; auto; apply Nat.eqb_eq in E; rewrite E in X; exact X. }
+  exact (@inv_update_own W s s' j r' WF I S EJ L EC EF SD SE SS SP RD LD CNT FL Q).
+Qed.
+
+Lemma inv_abort_return : forall W s j, wf W = true -> Inv W s -> pc (jobs s j) = PWoken ALockOutAbort ->
+  Inv W (abort_return W all_fixed s j).
+Proof.
+  intros W s j WF I P. unfold abort_return. simpl fx4.
+  assert (S : started (pc (jobs s j)) = true) by (rewrite P; auto).
+  pose proof (inv_release j WF I S) as I1.
+  set (s1 := release_all W s j) in *.
+  assert (E1 : jobs s1 j = w_held (jobs s j) []) by (unfold s1; rewrite release_all_jobs; apply upd_same).
+  set (r1 := jobs s1 j) in *.
+  assert (P1 : pc r1 = PWoken ALockOutAbort) by (rewrite E1; exact P).
+  assert (H1 : held r1 = []) by (rewrite E1; reflexivity).
+  pose proof (I_loc I1 j) as L1. unfold jl in L1. fold r1 in L1.
+  destruct (@abort_l_ok _ _ _ r1 L1 P1 H1) as (LI & SH).
+  set (r2 := if uns r1 =? 0 then fst (set_event_l (w_st r1 READY)) else w_st r1 WAITING) in *.
+  assert (R2 : cur r2 = cur r1 /\ fdep r2 = fdep r1 /\ launches r2 = launches r1).
+  { unfold r2. destruct (uns r1 =? 0); [|auto].
+    destruct (set_event_l (w_st r1 READY)) as [x w] eqn:SE. apply set_event_l_spec in SE. simpl in *. intuition. }
+  destruct R2 as (C2 & F2 & LL2).
+  apply (@inv_commit_loop W s1 j r2 (abort_l true r1)); auto; fold r1.
+  - rewrite P1; auto.
+  - rewrite P1; auto.
+  - intros D. pose proof (l_D L1 D) as X. rewrite P1 in X. discriminate.
+  - intros D. destruct (l_EN L1 D) as [X|X]; rewrite P1 in X; discriminate.
+  - intros _. right. rewrite P1. auto.
+Qed.
+
+Lemma inv_proc_return : forall W s j, wf W = true -> Inv W s -> pc (jobs s j) = PWoken AProc ->
+  Inv W (proc_return W s j).
+Proof.
+  intros W s j WF I P. unfold proc_return.
+  assert (S : started (pc (jobs s j)) = true) by (rewrite P; auto).
+  pose proof (inv_release j WF I S) as I1.
+  set (s1 := release_all W s j) in *.
+  assert (E1 : jobs s1 j = w_held (jobs s j) []) by (unfold s1; rewrite release_all_jobs; apply upd_same).
+  set (r1 := jobs s1 j) in *.
+  assert (P1 : pc r1 = PWoken AProc) by (rewrite E1; exact P).
+  assert (H1 : held r1 = []) by (rewrite E1; reflexivity).
+  pose proof (I_loc I1 j) as L1. unfold jl in L1. fold r1 in L1.
+  destruct (@proc_l_ok _ _ _ r1 L1 P1 H1) as (LI & SH & _).
+  apply (@inv_commit_loop W s1 j (w_st r1 (code_state (j_code (spec W j)))) (proc_l (j_code (spec W j)) r1)); auto; fold r1.
+  - rewrite P1; auto.
+  - rewrite P1; auto.
+  - intros D. pose proof (l_D L1 D) as X. rewrite P1 in X. discriminate.
+  - intros D. destruct (l_EN L1 D) as [X|X]; rewrite P1 in X; discriminate.
+  - intros _. right. rewrite P1. auto.
+Qed.
+
+Lemma inv_done_return : forall W s j, wf W = true -> Inv W s -> pc (jobs s j) = PWoken ADoneH ->
+  Inv W (done_return W s j).
+Proof.
+  intros W s j WF I P. set (r := jobs s j) in *.
+  set (r' := w_pc r (PReturned (st r))). set (s' := done_return W s j).
+  assert (S : started (pc r) = true) by (rewrite P; auto).
+  assert (JS : forall s0, jobs (notify_exit s0) = jobs s0) by (intros s0; unfold notify_exit; destruct (wst s0); reflexivity).
+  assert (EJ : jobs s' = upd (jobs s) j r').
+  { unfold s', done_return. simpl. rewrite JS. reflexivity. }
+  assert (L : linv (deps W j) (j_marker (spec W j)) (j_code (spec W j)) r') by (apply linv_returned; auto; apply (I_loc I j)).
+  assert (EC : cur r' = cur r) by reflexivity.
+  assert (EF : fdep r' = fdep r) by reflexivity.
+  assert (SD : st r = DONE -> st r' = DONE) by auto.
+  assert (SE : st r = ERROR -> st r' = ERROR) by auto.
+  assert (SS : started (pc r') = true) by reflexivity.
+  assert (SP : past_loop (pc r) = true -> past_loop (pc r') = true) by auto.
+  assert (RD : (st r' = READY \/ in_start (pc r') = true) -> (st r = READY \/ in_start (pc r) = true)).
+  { intros [X|X]; auto. discriminate. }
+  assert (LD : launches r' = 1%nat -> launches r = 1%nat \/ st r = READY \/ in_start (pc r) = true) by auto.
+  assert (US : forall s0, unfinished (notify_exit s0) = unfinished s0) by (intros s0; unfold notify_exit; destruct (wst s0); reflexivity).
+  assert (CNT : unfinished s' - unfinished s = (if counted (pc r') then 1 else 0) - (if counted (pc r) then 1 else 0)).
+  { unfold s', done_return. simpl. rewrite US. simpl. rewrite P. simpl. clear. lia. }
+  assert (FS : forall s0, failed (notify_exit s0) = failed s0) by (intros s0; unfold notify_exit; destruct (wst s0); reflexivity).
+  assert (FL : forall x, In x (failed s') <->
+     In x (failed s) \/ (x = j /\ past_loop (pc r') = true /\ past_loop (pc r) = false /\ st r' <> DONE)).
+  { intros x. unfold s', done_return. simpl. rewrite FS. simpl. split; auto. intros [X|(_ & _ & Y & _)]; auto.
+    rewrite P in Y. discriminate. }
+  assert (Q : forall c, In c (queue s') -> In c (queue s) \/ cb_ok s' c).
+  { intros c Hc. unfold s', done_return in Hc. simpl in Hc. apply in_app_or in Hc. destruct Hc as [X|X].
+    - unfold notify_exit in X. destruct (wst (s_unfinished s (unfinished s - 1))); simpl in X; auto.
+      apply in_app_or in X. destruct X as [X|[<-|[]]]; auto. right. simpl. auto.
+    - right. apply in_map_iff in X. destruct X as (q & <- & X). apply dependents_started in X.
+      rewrite JS in X. simpl in X. change (started (pc (jobs s' (fst q))) = true). rewrite EJ. unfold upd. destruct (Nat.eqb (fst q) j); auto. }
+  exact (@inv_update_own W s s' j r' WF I S EJ L EC EF SD SE SS SP RD LD CNT FL Q).
+Qed.
+
+Lemma check_pc : forall W s j i, pc (jobs s j) <> PAwaitReady ->
+  pc (jobs (check W all_fixed s j i) j) = pc (jobs s j).
+Proof.
+  intros W s j i N. destruct (check_cases W s j i) as [E|(d & r' & w & Nd & C & E)]; rewrite E; auto.
+  apply check_l_async in C. destruct C as (A & _). destruct (ao_pc A) as [X|(X&_)]; [|congruence].
+  destruct w; simpl; rewrite upd_same; auto.
+Qed.
+
+Lemma inv_start_body : forall W s j, wf W = true -> Inv W s -> pc (jobs s j) = PWoken ALockIn ->
+  Inv W (start_body W all_fixed s j).
+Proof.
+  intros W s j WF I P. unfold start_body. set (r := jobs s j) in *.
+  pose proof (I_loc I j) as L0. unfold jl in L0. fold r in L0.
+  assert (S : started (pc r) = true) by (rewrite P; auto).
+  destruct (lockin_facts L0 P) as (LA & MK & NE & ND & NF).
+  destruct (acquire_l (avail s) (held r) (deps W j) 0) as [[av hd] [i|]] eqn:ACQ.
+  - (* aborted start *)
+    set (ra := w_held r hd). set (s1 := s_avail (setjob s j ra) av).
+    assert (I1 : Inv W s1).
+    { assert (EJ : jobs s1 = upd (jobs s) j ra) by reflexivity.
+      assert (L : linv (deps W j) (j_marker (spec W j)) (j_code (spec W j)) ra) by (apply linv_held; auto).
+      assert (EC : cur ra = cur r) by reflexivity.
+      assert (EF : fdep ra = fdep r) by reflexivity.
+      assert (SD : st r = DONE -> st ra = DONE) by auto.
+      assert (SE : st r = ERROR -> st ra = ERROR) by auto.
+      assert (SS : started (pc ra) = true) by exact S.
+      assert (SP : past_loop (pc r) = true -> past_loop (pc ra) = true) by auto.
+      assert (RD : (st ra = READY \/ in_start (pc ra) = true) -> (st r = READY \/ in_start (pc r) = true)) by auto.
+      assert (LD : launches ra = 1%nat -> launches r = 1%nat \/ st r = READY \/ in_start (pc r) = true) by auto.
+      assert (CNT : unfinished s1 - unfinished s = (if counted (pc ra) then 1 else 0) - (if counted (pc r) then 1 else 0)).
+      { simpl. clear. destruct (counted (pc r)); lia. }
+      assert (FL : forall x, In x (failed s1) <->
+         In x (failed s) \/ (x = j /\ past_loop (pc ra) = true /\ past_loop (pc r) = false /\ st ra <> DONE)).
+      { intros x. split; auto. intros [X|(_ & X & Y & _)]; auto. simpl in X. congruence. }
+      assert (Q : forall c, In c (queue s1) -> In c (queue s) \/ cb_ok s1 c) by (intros c Hc; auto).
+      exact (@inv_update_own W s s1 j ra WF I S EJ L EC EF SD SE SS SP RD LD CNT FL Q). }
+    assert (P1 : pc (jobs s1 j) = PWoken ALockIn) by (simpl; rewrite upd_same; exact P).
+    assert (S1 : started (pc (jobs s1 j)) = true) by (rewrite P1; auto).
+    pose proof (inv_check j i WF I1 S1) as I2.
+    assert (P2 : pc (jobs (check W all_fixed s1 j i) j) = PWoken ALockIn).
+    { rewrite check_pc; auto. rewrite P1. discriminate. }
+    set (s2 := check W all_fixed s1 j i) in *. set (r2 := jobs s2 j) in *.
+    set (r' := w_pc r2 (PExt ALockOutAbort)). set (s' := setjob s2 j r').
+    assert (S2 : started (pc r2) = true) by (rewrite P2; auto).
+    assert (EJ : jobs s' = upd (jobs s2) j r') by reflexivity.
+    assert (L : linv (deps W j) (j_marker (spec W j)) (j_code (spec W j)) r') by (apply linv_toabort; auto; apply (I_loc I2 j)).
+    assert (EC : cur r' = cur r2) by reflexivity.
+    assert (EF : fdep r' = fdep r2) by reflexivity.
+    assert (SD : st r2 = DONE -> st r' = DONE) by auto.
+    assert (SE : st r2 = ERROR -> st r' = ERROR) by auto.
+    assert (SS : started (pc r') = true) by reflexivity.
+    assert (SP : past_loop (pc r2) = true -> past_loop (pc r') = true) by (rewrite P2; discriminate).
+    assert (RD : (st r' = READY \/ in_start (pc r') = true) -> (st r2 = READY \/ in_start (pc r2) = true)).
+    { intros _. right. rewrite P2. auto. }
+    assert (LD : launches r' = 1%nat -> launches r2 = 1%nat \/ st r2 = READY \/ in_start (pc r2) = true) by auto.
+    assert (CNT : unfinished s' - unfinished s2 = (if counted (pc r') then 1 else 0) - (if counted (pc r2) then 1 else 0)).
+    { rewrite P2. simpl. clear. lia. }
+    assert (FL : forall x, In x (failed s') <->
+       In x (failed s2) \/ (x = j /\ past_loop (pc r') = true /\ past_loop (pc r2) = false /\ st r' <> DONE)).
+    { intros x. split; auto. intros [X|(_ & X & _)]; auto. discriminate. }
+    assert (Q : forall c, In c (queue s') -> In c (queue s2) \/ cb_ok s' c) by (intros c Hc; auto).
+    exact (@inv_update_own W s2 s' j r' WF I2 S2 EJ L EC EF SD SE SS SP RD LD CNT FL Q).
+  - (* launch *)
+    set (r' := w_pc (w_st (w_launches (w_held r hd) (S (launches (w_held r hd)))) RUNNING) (PExt ALockOutRun)).
+    set (s' := s_avail (setjob s j r') av).
+    assert (EJ : jobs s' = upd (jobs s) j r') by reflexivity.
+    assert (L : linv (deps W j) (j_marker (spec W j)) (j_code (spec W j)) r') by (apply linv_launch; auto).
+    assert (EC : cur r' = cur r) by reflexivity.
+    assert (EF : fdep r' = fdep r) by reflexivity.
+    assert (SD : st r = DONE -> st r' = DONE) by (intros; contradiction).
+    assert (SE : st r = ERROR -> st r' = ERROR) by (intros; contradiction).
+    assert (SS : started (pc r') = true) by reflexivity.
+    assert (SP : past_loop (pc r) = true -> past_loop (pc r') = true) by (rewrite P; discriminate).
+    assert (RD : (st r' = READY \/ in_start (pc r') = true) -> (st r = READY \/ in_start (pc r) = true)).
+    { intros _. right. rewrite P. auto. }
+    assert (LD : launches r' = 1%nat -> launches r = 1%nat \/ st r = READY \/ in_start (pc r) = true).
+    { intros _. right; right. rewrite P. auto. }
+    assert (CNT : unfinished s' - unfinished s = (if counted (pc r') then 1 else 0) - (if counted (pc r) then 1 else 0)).
+    { rewrite P. simpl. clear. lia. }
+    assert (FL : forall x, In x (failed s') <->
+       In x (failed s) \/ (x = j /\ past_loop (pc r') = true /\ past_loop (pc r) = false /\ st r' <> DONE)).
+    { intros x. split; auto. intros [X|(_ & X & _)]; auto. discriminate. }
+    assert (Q : forall c, In c (queue s') -> In c (queue s) \/ cb_ok s' c) by (intros c Hc; auto).
+    exact (@inv_update_own W s s' j r' WF I S EJ L EC EF SD SE SS SP RD LD CNT FL Q).
+Qed.
